@@ -133,6 +133,7 @@ def run_task(task):
     real_create = kbase.Kernel.create_particle
     density_fail = []
     density_checks = [0]
+    outside_window = [0]
 
     def create_spy(self, log_q, parent_particle, tree):
         p = real_create(self, log_q, parent_particle, tree)
@@ -142,7 +143,9 @@ def run_task(task):
             lp = float(self.tree_dist.log_p(t))
             lp1 = float(self.tree_dist.log_p_one(t))
             if abs(lp - float(p.log_p)) > 1e-8 * (1 + abs(lp)) or abs(lp1 - float(p.log_p_one)) > 1e-8 * (1 + abs(lp1)):
-                if len(density_fail) < 3:
+                if not monitors.densities_inside_window(t):
+                    outside_window[0] += 1
+                elif len(density_fail) < 3:
                     density_fail.append({"stored": [float(p.log_p), float(p.log_p_one)], "recomputed": [lp, lp1],
                                          "alpha_now": float(self.tree_dist.prior.alpha)})
         return p
@@ -304,7 +307,10 @@ def run_task(task):
                                    dict(case, entry=ei, alpha=repr(e["alpha"])))
                     continue
                 re = float(TreeJointDistribution(FSCRPDistribution(e["alpha"])).log_p_one(t))
-                if not abs(re - lp) <= 1e-9 * (1 + abs(lp)):
+                if not abs(re - lp) <= 1e-9 * (1 + abs(lp)) and not monitors.densities_inside_window(t):
+                    # the property's quantifier: likelihood equalities on data inside the underflow window of C02
+                    part.count("trace_entries_outside_underflow_window")
+                elif not abs(re - lp) <= 1e-9 * (1 + abs(lp)):
                     part.violation("C15|recorded log_p_one differs from the density recomputed under the recorded "
                                    "concentration", dict(case, entry=ei, recorded=lp, recomputed=re, alpha=e["alpha"]))
             if "burnin_tree" in captured:
@@ -314,6 +320,8 @@ def run_task(task):
                 part.count("first_entry_checked")
             # ------------------------------------------------------------------ C13 call site
             part.count("particle_densities_recomputed", density_checks[0])
+            part.count("particle_densities_outside_underflow_window", outside_window[0])
+            outside_window[0] = 0
             for df in density_fail:
                 part.violation("C13|a density evaluated after the concentration update does not use the current "
                                "concentration value (stale value stored in a particle)", dict(case, **df))
